@@ -168,6 +168,13 @@ def read_records(parent, problems, where, allow_bundles):
         if ranks != sorted(ranks):
             problems.append("%s: children of prov:%s are not in schema order (%s)" % (
                 where, local, [split_tag(c.tag)[1] for c in el.children]))
+        members = [av for av in attrs if av[0] == PROV + "entity"]
+        if base == "Membership" and len(members) > 1:
+            # hadMember listing several entities = one membership per member (PROV-DM has binary membership)
+            others = [av for av in attrs if av[0] != PROV + "entity"]
+            for k, mv in enumerate(members):
+                records.append((PROV + base, ident if k == 0 else None, tuple(sorted(set(others + [mv]), key=sortkey))))
+            continue
         records.append((PROV + base, ident, tuple(sorted(set(attrs), key=sortkey))))
     return records, bundles
 
